@@ -128,6 +128,38 @@ def run(ctx):
             args = [pe.ev(a) for a in (node.right.elts if isinstance(node.right, ast.Tuple) else [node.right])]
         elif isinstance(node, ast.Name) and isinstance(pe.env.get(node.id), K) and isinstance(pe.env[node.id].v, str):
             fmt, args = pe.env[node.id].v, []
+        elif isinstance(node, ast.Call) and isinstance(node.func, ast.Attribute) and node.func.attr == "format" and not node.keywords:
+            f = pe.ev(node.func.value)
+            if not (isinstance(f, K) and isinstance(f.v, str)):
+                return None
+            import string
+            pieces, order = "", []
+            auto = 0
+            for lit, field, spec, conv in string.Formatter().parse(f.v):
+                pieces += lit
+                if field is None:
+                    continue
+                if spec or conv or not (field == "" or field.isdigit()):
+                    return None
+                idx = auto if field == "" else int(field)
+                auto += 1
+                pieces += "%s"
+                order.append(idx)
+            fmt = pieces
+            allargs = [pe.ev(a) for a in node.args]
+            if any(i >= len(allargs) for i in order):
+                return None
+            args = [allargs[i] for i in order]
+        elif isinstance(node, ast.JoinedStr):
+            fmt, args = "", []
+            for v in node.values:
+                if isinstance(v, ast.Constant):
+                    fmt += str(v.value)
+                elif isinstance(v, ast.FormattedValue) and v.format_spec is None and v.conversion == -1:
+                    fmt += "%s"
+                    args.append(pe.ev(v.value))
+                else:
+                    return None
         else:
             return None
         out = []
